@@ -605,6 +605,51 @@ def call_obj(A, meth, expr=None):
         getattr(m, meth)(e, A.fset)
 
 
+# first objectives of the redefinition family (several are falsy Python values: a guard written with truthiness
+# instead of `is not None` forgets them).  name: builder(A, maximise) -> objective legal for the direction
+FIRST_OBJ = {
+    'int0': lambda A, mx: 0,
+    'float0': lambda A, mx: 0.0,
+    'negzero': lambda A, mx: -0.0,
+    'npfloat0': lambda A, mx: np.float64(0),
+    'npint0': lambda A, mx: np.int64(0),
+    'array0(1,)': lambda A, mx: np.zeros(1),
+    'false': lambda A, mx: False,
+    'int3': lambda A, mx: 3,
+    'var': lambda A, mx: A.y,
+    'affine': lambda A, mx: 2 * A.y + 1,
+    'zero-affine': lambda A, mx: 0 * A.x.sum(),
+    'piecewise': lambda A, mx: (_rs().minof(A.x[0], A.x[1]) if mx else _rs().maxof(A.x[0], A.x[1])),
+    'convex': lambda A, mx: (-abs(A.y) if mx else abs(A.y)),
+    'expcone-atom': lambda A, mx: (_rs().log(A.y) if mx else _rs().exp(A.y)),
+}
+SECOND_OBJ = {'affine': lambda A: A.w, 'int0': lambda A: 0}
+MAXIMISING = ('max', 'maxmin', 'maxinf')
+DIRECT_MODELS = ['lp', 'socp', 'gcp']
+DIRECT_FIRST = ['int0', 'float0', 'negzero', 'npfloat0', 'npint0', 'array0(1,)', 'false', 'int3', 'var', 'affine',
+                'zero-affine', 'convex']
+
+
+class D:
+    """A deterministic model built directly on rsome.lp / rsome.socp / rsome.gcp."""
+
+    def __init__(self, kind):
+        import importlib
+        B.init()
+        self.fe = kind
+        self.m = importlib.import_module('rsome.' + kind).Model()
+        self.x = self.m.dvar(2)
+        self.y = self.m.dvar()
+        self.w = self.m.dvar()
+
+    def finish(self):
+        self.m.st(self.w >= 0)
+        f = self.m.do_math()
+        if f is None:
+            raise RuntimeError('do_math returned None')
+        return f
+
+
 NONSCALAR = {
     # name: (front ends, builder(A) -> expression of size > 1)
     'vars(2,)': ('rd', lambda A: A.x),
@@ -689,9 +734,41 @@ def failed_model(fe, state, solver):
             m.minsup(A.x[0] - A.w, A.fset)
         else:
             m.minsup(A.x[0] + A.x[1], A.fset)
-    if state != 'unsolved':
+    def solve():
         if solver == 'def':
             m.solve(display=False)
         else:
             m.solve(rs[solver], display=False)
+
+    if state == 'stale-infeasible':
+        # a successful solve first, then the model is made infeasible and solved again: nothing stale may be readable
+        solve()
+        ctx['first_solve_optimal'] = bool(m.optimal())
+        m.st(A.x[0] + A.x[1] <= 0)
+        solve()
+    elif state != 'unsolved':
+        solve()
+    return A, ctx
+
+
+def zero_model(fe, solver):
+    """A solved model whose optimum and optimal decisions are exactly 0 (falsy values that must stay readable)."""
+    rs = B.init()
+    A = M(fe)
+    m = A.m
+    ctx = {}
+    if fe == 'ro':
+        A.ldr.adapt(A.z)
+        ctx['lin'] = m.st(A.x[0] + A.x[1] >= 0)
+        ctx['bnd'] = m.st(A.x <= 5)
+        m.st(A.x >= 0, (A.ldr <= 5).forall(A.zset()), (A.ldr >= -5).forall(A.zset()), A.y >= 0, A.y <= 5)
+        m.min(A.x[0] + A.x[1] + A.y)
+    else:
+        A.v.adapt(A.z)
+        m.st(A.x >= 0, A.x <= 5, A.v <= 5, A.v >= -5, A.y >= 0, A.y <= 5)
+        m.minsup(A.x[0] + A.x[1] + A.y, A.fset)
+    if solver == 'def':
+        m.solve(display=False)
+    else:
+        m.solve(rs[solver], display=False)
     return A, ctx
